@@ -243,3 +243,29 @@ Definition mutate (idx_str : ctype -> nat -> string) (fresh : string) (p : gpod)
            volumes := filter (fun v => negb (String.eqb (fst v) vol)) (volumes p) ++ [(vol, cap)] |}
     end
   end.
+
+(** * The life of a pod object at the API server: a creation followed by updates.
+    Every write goes through the validating webhook (podValidator.ValidateCreate /
+    ValidateUpdate run the same plugin validation on the NEW object, whatever the
+    old one was); a refused write leaves the stored object as it was.  The
+    scheduler reads the stored object at every snapshot. *)
+Definition write (en : bool) (pf : string -> pfres) (stored : option gpod) (new : gpod) : option gpod :=
+  if admission_validate en pf new then Some new else stored.
+Definition stored_after (en : bool) (pf : string -> pfres) (writes : list gpod) : option gpod :=
+  fold_left (write en pf) writes None.
+(** the variant that skips validation for an update that leaves the (non-annotation) spec alone:
+    NOT the code; the witness of Properties/C19.v uses it *)
+Fixpoint strs_eqb (a b : list string) : bool :=
+  match a, b with
+  | [], [] => true
+  | x :: r, y :: r' => String.eqb x y && strs_eqb r r'
+  | _, _ => false
+  end.
+Definition same_spec (a b : gpod) : bool :=
+  strs_eqb (map c_name (containers a)) (map c_name (containers b))
+  && strs_eqb (map c_name (inits a)) (map c_name (inits b)).
+Definition write_skipping_unchanged_spec (en : bool) (pf : string -> pfres) (stored : option gpod) (new : gpod) : option gpod :=
+  match stored with
+  | Some old => if same_spec old new then Some new else write en pf stored new
+  | None => write en pf stored new
+  end.
